@@ -60,6 +60,12 @@ dev_assertion_message = (
 )
 
 
+class _MaxTimeReached(Exception):
+    """Raised by the Markov loop itself when `max_time` has elapsed. A private class, such
+    that a TimeoutError raised by user code (e.g. a forward model doing I/O) is not
+    mistaken for it and silently swallowed."""
+
+
 class H5FileOpenedError(FileExistsError):
     """An internal exception that helps us keep track of H5 files."""
 
@@ -699,13 +705,13 @@ class _AbstractSampler(_ABC):
 
                 # Check elapsed time
                 if self.max_time is not None and scheduled_termination_time < _time():
-                    # Raise TimeoutError if we're over time
-                    raise TimeoutError
+                    # Stop the loop if we're over time
+                    raise _MaxTimeReached
 
         except KeyboardInterrupt:  # Catch SIGINT --------------------------------------
             # Assume current proposal couldn't be finished, so ignore it.
             self.current_proposal -= 1
-        except TimeoutError:  # Catch SIGINT -------------------------------------------
+        except _MaxTimeReached:  # max_time elapsed --------------------------------------
             pass
         except Exception as e:
             # Any other exception, we don't know how to handle. Cleaning up (closing
